@@ -218,7 +218,9 @@ class C12Oracle(Oracle):
             if ep.terminated or ep.broken or ep.crashed:
                 pend.clear()
                 continue
-            late = self.sim.last_timer_lateness.get(name, 0.0)
+            # only lateness injected by the harness counts (a connection that keeps asking for a
+            # deadline in the past is late by its own doing); respin back-off is at most 20 ms
+            late = min(self.sim.last_timer_injected.get(name, 0.0), 0.021)
             for item in pend:
                 # slack: injected timer lateness, the endpoint's clock drift, one microsecond ticks
                 if now > item[2] + late + 0.002:
